@@ -11,6 +11,7 @@ import (
 	"runtime/metrics"
 	"sort"
 	"strings"
+	"sync/atomic"
 	"time"
 
 	"seehuhn.de/go/pdf"
@@ -61,6 +62,8 @@ type obs struct {
 	fonts      int
 	glyphSets  int // font programs loaded through the *glyphs.FromStream helpers
 	chars      int
+	olItems    int    // outline items decoded
+	nameKeys   int    // entries the destination name tree yielded
 	inner      uint64 // allocation of the stages nested in the current one
 	alloc      uint64
 	allocBy    map[string]uint64 // allocation per stage
@@ -88,8 +91,15 @@ func totalAlloc() uint64 {
 	return allocSample[0].Value.Uint64()
 }
 
+// curStage is the innermost stage the walk is in (read by the hang sampler).
+var curStage atomic.Value
+
+func init() { curStage.Store("") }
+
 // guard runs f and converts a panic into an observation.
 func (o *obs) guard(stage string, f func() error) {
+	prevStage := curStage.Swap(stage)
+	defer curStage.Store(prevStage)
 	// allocation is attributed to the innermost stage
 	a0 := totalAlloc()
 	saved := o.inner
@@ -106,8 +116,9 @@ func (o *obs) guard(stage string, f func() error) {
 		}
 	}()
 	err := f()
+	// a stage that runs several times (get, drain, page ...) reports the worst result
 	if err != nil {
-		if _, ok := o.stage[stage]; !ok {
+		if o.stage[stage] != "panic" {
 			o.stage[stage] = "err"
 		}
 	} else if _, ok := o.stage[stage]; !ok {
@@ -203,7 +214,10 @@ func walk(data []byte, password string, mode int) (o obs) {
 			for _, pageDict := range it.All() {
 				o.pages++
 				if o.pages > maxPages {
-					break
+					// keep iterating (a correct iterator yields every page object
+					// once, so this ends after at most as many steps as the file
+					// has objects) but stop decoding
+					continue
 				}
 				var pg *page.Page
 				o.guard("page", func() error {
@@ -223,7 +237,21 @@ func walk(data []byte, password string, mode int) (o obs) {
 			return it.Err
 		})
 		o.guard("outline", func() error {
-			_, err := pdf.Decode(pdf.NewCursor(r), meta.Catalog.Outlines, outline.Decode)
+			ol, err := pdf.Decode(pdf.NewCursor(r), meta.Catalog.Outlines, outline.Decode)
+			if ol != nil {
+				// (iterative: the tree may be 256 levels deep and very wide)
+				todo := [][]*outline.Item{ol.Items}
+				for len(todo) > 0 {
+					items := todo[len(todo)-1]
+					todo = todo[:len(todo)-1]
+					o.olItems += len(items)
+					for _, it := range items {
+						if len(it.Children) > 0 {
+							todo = append(todo, it.Children)
+						}
+					}
+				}
+			}
 			return err
 		})
 		o.guard("names", func() error { return o.names(r, meta.Catalog) })
@@ -355,11 +383,9 @@ func (o *obs) names(r pdf.Getter, cat *pdf.Catalog) error {
 	if err != nil || t == nil {
 		return err
 	}
-	n := 0
+	// no cap: a tree yields at most the entries the file contains
 	for range t.All() {
-		if n++; n > 1<<16 {
-			break
-		}
+		o.nameKeys++
 	}
 	t.Lookup("dest01")
 	_, err = nametree.ExtractInMemory(r, nd["Dests"])
